@@ -22,7 +22,7 @@ import (
 type vesting struct{ id string }
 
 func init() {
-	register("C08", func() e.Profile { return &vesting{"C08"} })
+	register("C08", newC08)
 	register("C09", func() e.Profile { return &vesting{"C09"} })
 	register("C11", func() e.Profile { return &vesting{"C11"} })
 }
@@ -31,7 +31,7 @@ func (p *vesting) ID() string { return p.id }
 
 var vestOps = []string{"vest_create", "vest_convert_into", "vest_clawback", "vest_update_funder", "vest_convert_back",
 	"lv_liquidate", "lv_redeem", "erc20_convert_coin", "erc20_convert_erc20",
-	"send", "delegate", "undelegate", "redelegate", "withdraw", "authz_grant", "authz_exec", "fund_pool", "dao_fund", "eth_transfer", "gov_submit", "gov_deposit"}
+	"send", "delegate", "undelegate", "redelegate", "withdraw", "authz_grant", "authz_exec", "fund_pool", "dao_fund", "eth_transfer", "gov_submit", "gov_deposit", "multi_send", "eth_pc_delegate"}
 
 func (p *vesting) Configure(r *e.RNG, tier string) e.Config {
 	c := e.DefaultConfig()
@@ -167,7 +167,7 @@ func (p *vesting) Gen(w *e.World, r *e.RNG) e.Step {
 	va := vestingAccts(w)
 	// vesting accounts are the interesting actors of every debit path
 	switch op {
-	case "send", "delegate", "fund_pool", "dao_fund", "eth_transfer", "gov_deposit", "gov_submit":
+	case "send", "delegate", "fund_pool", "dao_fund", "eth_transfer", "gov_deposit", "gov_submit", "multi_send", "eth_pc_delegate":
 		if len(va) > 0 && r.Chance(0.6) {
 			st.A = va[r.Intn(len(va))]
 			bal := w.Balance(w.Acct(st.A).Acc)
@@ -177,6 +177,8 @@ func (p *vesting) Gen(w *e.World, r *e.RNG) e.Step {
 				st.S = []string{e.Denom, amt.String()}
 			case "gov_submit":
 				st.S = []string{amt.String()}
+			case "multi_send":
+				st.S = []string{amt.String(), r.Amount(amt).String()}
 			default:
 				st.S = []string{amt.String()}
 			}
